@@ -227,17 +227,31 @@ def generate_case(rnd, D, k):
             if sa.shape == (d, repeat) and ((sa < lo - 1e-12).any() or (sa > hi + 1e-12).any()):
                 out.append(("generate-outside-support-uniform", f"Uniform with bounds {col(lo)}, {col(hi)} (after update_bounds where applicable) generated {sa.T.tolist()}"))
     elif kind == "composite":
-        parts = [D.Normal(distgen.col([distgen.dy(rnd)]), distgen.col([distgen.pos(rnd)])), D.Laplace(distgen.col([distgen.dy(rnd)]), distgen.col([distgen.pos(rnd)])),
-                 D.Uniform(distgen.col([-1.0]), distgen.col([2.0]))]
-        obj, d = D.CompositeDistribution(parts), 3
+        # blocks of every dimensionality in every order (a multi-dimensional block first, in the middle, last)
+        dims = rnd.choice([[1, 1, 1], [3, 1, 2], [2, 1], [1, 2], [2, 2, 1], [1, 3, 1], [2, 3]])
+        parts, images = [], []
+        for nd in dims:
+            pk = rnd.choice(["normal", "laplace", "uniform"])
+            pm = distgen.col([distgen.dy(rnd) for _ in range(nd)])
+            if pk == "normal":
+                pv = distgen.col([distgen.pos(rnd) for _ in range(nd)])
+                parts.append(D.Normal(pm.copy(), pv.copy()))
+                images.append(lambda c, pm=pm, pv=pv, nd=nd: (zdraw(c).reshape(nd, -1) * numpy.sqrt(pv) + pm) if zdraw(c) is not None else None)
+            elif pk == "laplace":
+                pb = distgen.col([distgen.pos(rnd) for _ in range(nd)])
+                parts.append(D.Laplace(pm.copy(), pb.copy()))
+                images.append(lambda c, pm=pm, pb=pb, nd=nd: laplace_image(c, pm, pb, nd) if c[0] == "laplace" else None)
+            else:
+                plo, phi = pm - 1.0, pm + 2.0
+                parts.append(D.Uniform(plo.copy(), phi.copy()))
+                images.append(lambda c, plo=plo, phi=phi, nd=nd: (numpy.asarray(c[3]).reshape(nd, -1) if c[0] == "uniform"
+                                                                   else (plo + (phi - plo) * numpy.asarray(c[3]).reshape(nd, -1)) if c[0] == "random" else None))
+        obj, d = D.CompositeDistribution(parts), sum(dims)
         s = obj.generate(repeat, rng=rng)
-        if len(rng.calls) == 3:
-            c = rng.calls
-            upart = c[2][3] if c[2][0] == "uniform" else (-1.0 + 3.0 * numpy.asarray(c[2][3]).reshape(1, -1))     # uniform(-1, 2), or the same from unit uniforms
-            zpart = zdraw(c[0])
-            lpart = laplace_image(c[1], numpy.asarray(parts[1].means, dtype=float), numpy.asarray(parts[1].dispersions, dtype=float), 1)
-            if zpart is not None and lpart is not None:
-                want = numpy.vstack([zpart * numpy.sqrt(parts[0].covariance) + parts[0].means, lpart, upart])
+        if len(rng.calls) == len(parts):
+            blocks = [im(c) for im, c in zip(images, rng.calls)]
+            if all(b is not None for b in blocks):
+                want = numpy.vstack(blocks)
     elif kind == "mixture":
         weights = rnd.choice([[0.25, 0.75], [0.0, 0.25, 0.75], [0.2, 0.3, 0.5], [0.5, 0.0, 0.5], [0.02, 0.9, 0.08]])
         repeat = rnd.choice([1, 2, 5, 12])
